@@ -144,7 +144,45 @@ func genAttrChain(r *RNG, els []string, fresh string) Op {
 		o.Scope = "els"
 		o.Els = subset(r, els, 1, 3)
 	}
+	if r.Bool(0.12) { // the builder value is used for a second scope call
+		switch r.Intn(3) {
+		case 0:
+			o.Scope2 = "glob"
+		case 1:
+			o.Scope2, o.ElRe2 = "elsre", r.Pick(elPatterns)
+		default:
+			o.Scope2, o.Els2 = "els", subset(r, els, 1, 2)
+		}
+	}
 	return o
+}
+
+// genRulePile: three to seven rules for ONE attribute in ONE slot (a pattern, the global
+// table or an element), so that the slot's rule list has grown by appends and has spare
+// capacity; plus rules for the same attribute elsewhere.
+func genRulePile(r *RNG, els []string) []Op {
+	name := r.Pick([]string{"title", "align", "width", "lang", "value", "height"})
+	n := r.Pick([]string{"3", "3", "5", "6", "7"})
+	cnt := int(n[0] - '0')
+	scope := r.Pick([]string{"elsre", "glob", "els"})
+	pat := r.Pick(elPatterns)
+	el := r.Pick(els)
+	var out []Op
+	for i := 0; i < cnt; i++ {
+		o := Op{K: "AllowAttrs", Names: []string{name}, Re: valuePatterns[(r.Intn(len(valuePatterns)))], Scope: scope}
+		switch scope {
+		case "elsre":
+			o.ElRe = pat
+		case "els":
+			o.Els = []string{el}
+		}
+		out = append(out, o)
+	}
+	// the same attribute under other, overlapping slots
+	out = append(out, Op{K: "AllowAttrs", Names: []string{name}, Re: r.Pick(valuePatterns), Scope: "elsre", ElRe: r.Pick(elPatterns)},
+		Op{K: "AllowAttrs", Names: []string{name}, Re: r.Pick(valuePatterns), Scope: "els", Els: subset(r, els, 1, 2)},
+		Op{K: "AllowAttrs", Names: []string{name}, Re: r.Pick(valuePatterns), Scope: "els", Els: subset(r, els, 1, 2)})
+	return out
 }
 
 func genStyleChain(r *RNG, els []string) Op {
@@ -235,6 +273,11 @@ func GenRecipe(r *RNG, opt GenOpts) Recipe {
 	}
 	for i, n := 0, r.Range(0, 5); i < n; i++ {
 		add(genAttrChain(r, myEls, opt.Fresh))
+	}
+	if feature(0.3) {
+		for _, o := range genRulePile(r, myEls) {
+			add(o)
+		}
 	}
 	for i, n := 0, r.Range(0, 3); i < n; i++ {
 		add(genStyleChain(r, myEls))
@@ -376,8 +419,12 @@ func VocabOf(rc Recipe, fresh string) Vocab {
 		case "AllowAttrs", "AllowNoAttrs":
 			addAt(o.Names...)
 			addEl(o.Els...)
+			addEl(o.Els2...)
 			if o.ElRe != "" {
 				pats = append(pats, o.ElRe)
+			}
+			if o.ElRe2 != "" {
+				pats = append(pats, o.ElRe2)
 			}
 			if o.Re != "" {
 				addVal(valueSamples[o.Re]...)
